@@ -34,6 +34,8 @@ def run(run, model):
     run.do(meta.snapshot_provenance, model, "C02.old-inherited")
     run.do(c04.post_collapse, model, "C02.inherited-post")
     run.do(c05.order_identity, model, "C02.args-order", "C02.args-identity")
+    run.do(c05.defaults_rule, model, "C02.defaults")
+    run.do(common.truth_rule, model, "C02.truth")
     from . import twins
     run.do(twins.helper_dispatch, model, "C02.await-dispatch", "C02.sync-reject")
     run.minimum("C02.gate", 2)
